@@ -93,6 +93,18 @@ def drivers(d):
                       ("defaulting", {"z": 5})],
         "refs": ["s.json#/t", H + "b/s.json#/t"], "scope": H + "b/",
     })
+    # --- D: no references at all; answers that depend on the VALUE of an instance, not on its Python class
+    # (2.0 is an integer from draft 6 on, 2.5 is not; true is not 1), so that anything a validator object
+    # remembers per class or per object identity is observable
+    S = {"properties": {"i": {"type": "integer"}, "n": {"type": ["number", "null"]},
+                        "l": {"items": {"type": "integer"}, "uniqueItems": True},
+                        "e": {"enum": [1, "a", [2.0]]}, "m": {"minimum": 2}}}
+    out.append({
+        "name": "D", "schema": S, "store": {}, "remote": {},
+        "instances": [{"i": 2.0, "e": 1, "m": 2.0}, {"i": 2.5, "e": True, "m": True}, {"l": [2.0, 2.5, 2], "i": 2},
+                      {"i": True, "n": 1.5, "l": [1, True, 1.0], "e": [2]}, {"i": "2", "n": None, "e": 1.0, "m": 1.5}],
+        "refs": [], "scope": H + "elsewhere/",
+    })
     return out
 
 
@@ -204,10 +216,12 @@ def run_op(w, op):
 class Model(object):
     def __init__(self, d, drv):
         self.d, self.drv = d, drv
-        ops = [("mode", "fail"), ("mode", "ok")]
+        ops = [("mode", "fail"), ("mode", "ok")] if drv["remote"] else []
         for i in range(len(drv["refs"])):
             ops.append(("resolve", i))
-        ops += [("resolving", 0), ("resolving", len(drv["refs"]) - 1), ("in_scope",)]
+        if drv["refs"]:
+            ops += [("resolving", 0), ("resolving", len(drv["refs"]) - 1)]
+        ops.append(("in_scope",))
         for i in range(len(drv["instances"])):
             ops += [("is_valid", i), ("exhaust", i), ("validate", i), ("take_close", i, 1), ("take_drop", i, 1)]
             if i in (1, 2):         # the instances with several errors: also abandon after the second
@@ -394,7 +408,7 @@ def plan(ctx):
         "rule": ("PURITY SWEEP: every single-keyword schema and sibling group of G(draft) x 29 instances x 4 entry "
                  "points, the schema given directly and as a store document reached through $ref: schema, store "
                  "document and instance are compared (types, key order) before and after.  HISTORIES: "
-                 "3 driver schemas per draft (local / store / handler-served / relative-under-nested-id / recursive / "
+                 "4 driver schemas per draft (D: reference-free, value-dependent answers on 2 / 2.0 / 2.5 / true; local / store / handler-served / relative-under-nested-id / recursive / "
                  "unresolvable references, references under not, contains, oneOf, anyOf, if and draft-3 type/disallow) "
                  "x all operation histories on one validator: un-merged to depth D0, then one representative per "
                  "canonical state (scope stack, handler mode, fetched set, store keys, held exceptions) to depth D1; "
